@@ -68,9 +68,15 @@ CHECKS = {
    technique="TLA+ model of message tree <-> token list (spec/GroupCodec.tla: Flatten, the decoder's group-context algorithm as a step machine, WellFormedTree); TLC generates every well-formed tree over a small table with a reference grammar machine and checks Parse o Flatten = id (spec/GroupCodecMC.tla); trees over the LIVE repeating-group table pushed through the real Codec.encode/decode and judged by TLC (spec/GroupCodecEval.tla) including an independent byte tokeniser (spec/Wire.tla)",
    text="Every group of the working tree's 29-group table as outermost group with 1-3 items, item shapes (delimiter only, all members, delimiter + each optional member, every second member), nested groups to the depth the table allows, plain fields before/after, two groups side by side, standard/custom/SequenceReset types, allocate / raw / PossDup / SequenceReset numbering modes, adversarial values (framing look-alikes such as '8=FIX.', '10=000', '9=12', '=', latin-1). TLC decides well-formedness of each tree, whether the decoder algorithm inverts Flatten for the live table, and compares the real decode result, header, consumed length, raw bytes and the independently tokenised bytes.",
    design_ref="5/C01", note="Values are drawn from a pool (not exhaustive text); empty values and values with SOH are outside the property. " + COMMON_NOTE),
+ "C16": dict(engine="OrderStatus",
+   technique="the transition tables of change_status transcribed as a total function in TLA+ (spec/OrderStatus.tla) with laws L1-L5; TLC evaluates the laws on the table over the whole finite domain (spec/OrderStatusMC.tla) and on the results of the real change_status / can_cancel / can_replace / is_finished for every one of the 40 500 points (spec/OrderStatusEval.tla)",
+   text="Exhaustive over 15 statuses x {8, 9, F, G, unsupported} x 17 ExecTypes + omitted x 15 reported statuses x both error modes; the laws (closed and only the library's error, finished statuses absorbing, never back to created / pending-new, created accepts only pending-new/rejected, request kinds permitted exactly for new / partially filled / suspended) decide; equality with the transcribed table is conformance.",
+   design_ref="5/C16", note="Known finding KF-C16-pinned-cancel-reject-pending-new (two test-pinned rows). " + COMMON_NOTE),
 }
 
 ENGINES = [
+ dict(name="OrderStatus", path="spec/OrderStatus.tla spec/OrderStatusMC.tla spec/OrderStatusEval.tla harness/props/c16.py",
+      serves_properties=["C16"], kind_free_text="TLA+ transcription of the order status transition function + laws, evaluated exhaustively by TLC on the model and on the real function"),
  dict(name="GroupCodec", path="spec/GroupCodec.tla spec/GroupCodecMC.tla spec/GroupCodecEval.tla harness/props/c01.py",
       serves_properties=["C01"], kind_free_text="TLA+ model of the group-context decoding algorithm + TLC tree generation + real codec round trips judged by TLC"),
  dict(name="Wire", path="spec/Wire.tla spec/WireEval.tla spec/Reassembly.tla harness/wirecheck.py harness/props/c02.py harness/props/c03.py harness/props/c10.py",
